@@ -1023,6 +1023,38 @@ func srcSwitches(repo string, b *strings.Builder) bool {
 			}
 		}
 	}
+	// DumpJSON hands out freshly marshalled bytes: the only calls in it are the lock pair, redactedCopy, json.Marshal and
+	// RedactDumpJSON (whose result may BE its argument), and the only deferred call is the unlock - no buffer of a pool, no
+	// release of anything the result may alias
+	dumpFresh := false
+	if _, f5, err := ParseGoFile(repo, "pkg/configmanager/effectiveconfig.go"); err == nil {
+		if dj := FindFunc(f5, "", "DumpJSON"); dj != nil {
+			allowed := map[string]bool{"configLock.RLock": true, "configLock.RUnlock": true, "redactedCopy": true, "json.Marshal": true, "RedactDumpJSON": true}
+			dumpFresh = true
+			marshals := 0
+			ast.Inspect(dj.Body, func(n ast.Node) bool {
+				switch x := n.(type) {
+				case *ast.CallExpr:
+					fn := exprStr(x.Fun)
+					if !allowed[fn] {
+						dumpFresh = false
+					}
+					if fn == "json.Marshal" {
+						marshals++
+					}
+				case *ast.DeferStmt:
+					if exprStr(x.Call.Fun) != "configLock.RUnlock" {
+						dumpFresh = false
+					}
+				case *ast.GoStmt:
+					dumpFresh = false
+				}
+				return true
+			})
+			dumpFresh = dumpFresh && marshals == 1
+		}
+	}
+	fmt.Fprintf(b, "(* DumpJSON returns freshly marshalled bytes (no pooled buffer, nothing released that the result may alias) *)\nDefinition src_dump_fresh_bytes := %v.\n", dumpFresh)
 	fmt.Fprintf(b, "(* transferConfig returns the output of json.MarshalIndent as it is (no processing of the text) *)\nDefinition src_transfer_returns_marshal := %v.\n", transferPlain)
 	fmt.Fprintf(b, "Definition src_redact_copies_servers := %v.\n", copiesServers && copiesListeners)
 	fmt.Fprintf(b, "Definition src_redact_handles_extends := %v.\n", handlesExt)
